@@ -13,7 +13,7 @@ INFO = {
                "documented spelling resolves to a different function than documented; the terminator sets of all "
                "open-ended token readers of the expression language contain every argument separator (whitespace, "
                "`,`, `)`) and end of input, for all 256 byte values; compiled patterns are obtained only through "
-               "the cache, which is keyed by the pattern text it compiles. `(.f x)` pushes the root extractor first and strips exactly the dot; the --set stage is the outermost stage, so its bindings are in scope in every option position.",
+               "the cache, which is keyed by the pattern text it compiles. `(.f x)` pushes the root extractor first and strips exactly the dot; the --set stage is the outermost stage, so its bindings are in scope in every option position. The bounded regex cache is never asked for capacity 0, whatever size is configured.",
     "not_decided": "Evaluation equality across option positions on run-time values, and (.f x) == (f . x) beyond the "
                    "presence of the rewrite.",
     "trusted": ["sa/tables/aliases.toml (documented spellings)", "cached::SizedCache returns the value stored under an equal key"],
@@ -208,6 +208,9 @@ def run(ctx, rep):
                                    or n.startswith("regex::bytes::Regex::new")):
         if caller.startswith("<regex_cache::RegexCache as regex_cache::RegexCompile>::compile_regex"):
             r.ok(caller, "the cache", c.where(), nontrivial=False)
+        elif caller.split(" as ")[0].lstrip("<").startswith(("build_docs::", "selection_help::")):
+            # the documentation generator (feature create-docs) is not on the data path of a selection
+            r.ok(caller, "documentation generator, outside the scope of the property", c.where(), nontrivial=False)
         else:
             r.bad(caller, "compiles a pattern without the cache", c.where())
     for fn in ("match_regex", "extract_regex_group"):
@@ -220,6 +223,38 @@ def run(ctx, rep):
         else:
             r.bad("regex::" + fn, "does not obtain its pattern from Context::compile_regex", bs[0].where())
     c13_shared.cache_key(rep, lib)
+    # ------------------------------------------------------------ CACHE-SIZE
+    r = rep.rule("C13-CACHE-SIZE", "RegexCache::new works for every configured size: the bounded cache is never asked "
+                 "for capacity 0 (cached::SizedCache::with_size panics on 0), whatever size is configured", floor=2,
+                 analysis="interval analysis of the size argument over dominating comparisons + A5 partial evaluation "
+                          "of RegexCache::new for sizes 0, 1, 2")
+    from rules import panic_rules as PN
+    from lib.peval import PE as _PE
+    nb = lib.bodies.get("regex_cache::RegexCache::new")
+    if nb is None:
+        r.missing("regex_cache::RegexCache::new")
+    else:
+        sites = [x for x in PN.collect(lib, PN.api_table()) if x.body is nb and x.kind == "call:cache_with_size"]
+        if not sites:
+            r.bad("RegexCache::new#with_size", "no bounded cache is built (unrecognised idiom)", nb.where())
+        for n, x in enumerate(sites):
+            why = PN.D_cache_size(x, None)
+            if why:
+                r.ok("RegexCache::new#with_size[%d]" % n, why, x.where)
+            else:
+                r.bad("RegexCache::new#with_size[%d]" % n, "the capacity handed to SizedCache::with_size can be 0 for "
+                      "some configured size: the run panics before any input is read", x.where)
+        for size in (0, 1, 2):
+            res = _PE(nb).run(env={1: ("i", size)})
+            built = [c for bb, c, av in res.calls if (c.name or "").endswith("::with_size")]
+            argv = [av[0] for bb, c, av in res.calls if (c.name or "").endswith("::with_size")]
+            key = "RegexCache::new[size=%d]" % size
+            zero = [a for a in argv if a == ("i", 0)]
+            if zero:
+                r.bad(key, "configured size %d asks the bounded cache for capacity 0, which panics" % size, nb.where())
+            else:
+                r.ok(key, "bounded cache of capacity %s" % ([a[1] if a else "?" for a in argv],) if built
+                     else "no cache", nb.where())
 
 
 def _unq(s):
